@@ -69,7 +69,7 @@ func (o *goSliceObject) setLength(value Value) {
 }
 
 func (o *goSliceObject) setValue(index int64, value Value) bool {
-	reflectValue, err := value.toReflectValue(o.value.Type().Elem())
+	reflectValue, err := value.toElementValue(o.value.Type().Elem())
 	if err != nil {
 		panicConversionError(err)
 	}
